@@ -388,6 +388,16 @@ func c08Run(c *core.Ctx) {
 			}
 		})
 	}
+	// (3c) identifier spellings (names table, keyword look-alikes)
+	for ii, name := range gen.Identifiers() {
+		if !c.Mine(int64(ii)) || c.Tick() {
+			continue
+		}
+		for _, src := range gen.IdentPrograms(name) {
+			c.Inc("identifier_programs")
+			run(src, 40, nil, "")
+		}
+	}
 	// (3b) scale family (long lines: multi-digit VLQ columns; many names; many lines)
 	for i, sp := range gen.Scale(c.Thorough()) {
 		if !c.Mine(int64(i)) || c.Tick() {
